@@ -199,6 +199,7 @@ func vfResidue(ps *PubSub, cm *vfCmgr, p peer.ID) []string {
 
 type vfLifeCfg struct {
 	blacklistOps bool // C16: include BlacklistPeer / direct blacklist insertion
+	script       int  // 1: a GRAFT on the peer's own stream while the node's outbound stream to it is down, then (C16) BlacklistPeer / (C13) carry on
 }
 
 func vfLifeHistory(t *testing.T, rng *rand.Rand, nops int, cfg vfLifeCfg) (lit string, rec map[string]any, finalResidue []string, nontrivial bool) {
@@ -339,10 +340,28 @@ func vfLifeHistory(t *testing.T, rng *rand.Rand, nops int, cfg vfLifeCfg) (lit s
 		}
 		connected := func() bool { return hb.Network().Connectedness(ha.ID()) == network.Connected }
 		blacklisted := false
+		// scripted prefix: (selector, RPC kind, topic); -1 = random
+		type forcedOp struct{ r, k, tp int }
+		var script []forcedOp
+		if cfg.script == 1 {
+			// the second reset of the node's outbound stream makes it wait 100 ms before it tries again: the GRAFT lands in that window
+			script = []forcedOp{{0, -1, -1}, {15, -1, -1}, {40, -1, 0}, {28, -1, -1}, {28, -1, -1}, {90, 2, 0}}
+			if cfg.blacklistOps {
+				script = append(script, forcedOp{57, -1, -1})
+			}
+		}
+		forcedAPI := false
 		for i := 0; i < nops; i++ {
 			r := rng.Intn(100)
 			if cfg.blacklistOps && rng.Intn(12) == 0 {
 				r = 57 // a blacklisting (by either route) at this point of the lifecycle
+			}
+			fk, ftp := -1, -1
+			if i < len(script) {
+				r, fk, ftp = script[i].r, script[i].k, script[i].tp
+				forcedAPI = r == 57
+			} else {
+				forcedAPI = false
 			}
 			switch {
 			case r < 12:
@@ -403,6 +422,9 @@ func vfLifeHistory(t *testing.T, rng *rand.Rand, nops int, cfg vfLifeCfg) (lit s
 				step("disconnect")
 			case r < 45: // A subscribes / cancels
 				tp := rng.Intn(2)
+				if ftp >= 0 {
+					tp = ftp
+				}
 				if s, ok := subs[tp]; ok {
 					s.Cancel()
 					delete(subs, tp)
@@ -423,7 +445,7 @@ func vfLifeHistory(t *testing.T, rng *rand.Rand, nops int, cfg vfLifeCfg) (lit s
 				time.Sleep(d)
 				step(fmt.Sprintf("sleep %v", d))
 			case r < 59 && cfg.blacklistOps:
-				if rng.Intn(2) == 0 {
+				if forcedAPI || rng.Intn(2) == 0 {
 					psA.BlacklistPeer(pb_)
 					apiBL = true
 					step("blacklist-api")
@@ -463,6 +485,9 @@ func vfLifeHistory(t *testing.T, rng *rand.Rand, nops int, cfg vfLifeCfg) (lit s
 				fl := false
 				var rpc *pb.RPC
 				k := rng.Intn(9)
+				if fk >= 0 {
+					k, tt = fk, vfTopic(ftp)
+				}
 				switch k {
 				case 0:
 					rpc = &pb.RPC{Subscriptions: []*pb.RPC_SubOpts{{Subscribe: &tr, Topicid: &tt}}}
@@ -541,6 +566,9 @@ func TestVF_Life(t *testing.T) {
 	ncases := vfN(120, 1200)
 	for c := 0; c < ncases; c++ {
 		cfg := vfLifeCfg{blacklistOps: c%2 == 1}
+		if c%4 >= 2 {
+			cfg.script = 1
+		}
 		lit, rec, _, nt := vfLifeHistory(t, rng, 30+rng.Intn(50), cfg)
 		cs.add(lit, rec, nt)
 		if cfg.blacklistOps {
